@@ -48,6 +48,11 @@ func (n *RestPatternNode) Equal(other value.Value) bool {
 		return false
 	}
 
+	if n.Identifier == nil || o.Identifier == nil {
+		// anonymous rest patterns
+		return n.Identifier == nil && o.Identifier == nil && n.loc.Equal(o.loc)
+	}
+
 	return n.Identifier.Equal(value.Ref(o.Identifier)) &&
 		n.loc.Equal(o.loc)
 }
@@ -56,7 +61,10 @@ func (n *RestPatternNode) String() string {
 	var buff strings.Builder
 
 	buff.WriteRune('*')
-	buff.WriteString(n.Identifier.String())
+	// an anonymous rest pattern has no identifier
+	if n.Identifier != nil {
+		buff.WriteString(n.Identifier.String())
+	}
 
 	return buff.String()
 }
